@@ -21,6 +21,17 @@ MIRI_NOLEAK = {"MIRIFLAGS": "-Zmiri-ignore-leaks"}
 ASAN_NOLEAK = {"ASAN_OPTIONS": "detect_leaks=0:halt_on_error=1:abort_on_error=0:exitcode=98"}
 
 
+def lean_jobs(tier, seed, features=()):
+    """The lean workload: almost all interpreted time inside gecs's unsafe code."""
+    k = 1 if tier == "quick" else 5
+    jobs = shards(Config("miri-dbg", features), "lean", "main", 2 * k, 1200, seed + 6000, timeout=3000)
+    jobs += shards(Config("miri-rel", features), "lean", "main", 2 * k, 1200, seed + 6100, timeout=3000)
+    jobs += shards(Config("asan", features), "lean", "main", 2, 60000 * k, seed + 6200, timeout=3000)
+    if tier == "thorough":
+        jobs += shards(Config("vg", features), "lean", "main", 4, 30000, seed + 6300, timeout=3000)
+    return jobs
+
+
 def history_plan(workload, tier, seed, features=(), native_ops=6000, miri_ops=60, asan_ops=3500, worlds=("main", "small"), tools=None, scale=1.0, leaks=True, extra=()):
     """Standard tool matrix for one history workload."""
     dbg, rel = Config("dbg", features), Config("rel", features)
@@ -89,7 +100,7 @@ def reg(p):
 
 reg(Prop(
     "C01", "exploration",
-    lambda tier, seed: history_plan("churn", tier, seed),
+    lambda tier, seed: history_plan("churn", tier, seed) + lean_jobs(tier, seed),
     accept=["C01"],
     floors={"stale_probes_after_reuse": 1000, "growth_after_churn": 1, "stale_probes_after_2plus_reuses": 100, "max_lookup_matrix_cells": 60},
     rule="seeded random histories (create / create_within_capacity / destroy by 4 key kinds at world and archetype level / ecs_iter_destroy! / clone / drop / hot-slot recycling / drain-refill) on two worlds (7 archetypes incl. ZST, heap, over-aligned, 16 columns; 2 archetypes), from boundary-biased initial capacities; after every step every lookup path x key kind is probed for live and stale handles and the slot-map invariants are walked via hook H1. evaluations = history steps executed over all processes; distinct_nontrivial = distinct abstract storage states (len, capacity, free-list head, slot index array) seen by the invariant walker, largest single process (lower bound of the union)",
@@ -104,7 +115,7 @@ STATES = "distinct_nontrivial = distinct abstract storage states (len, capacity,
 
 reg(Prop(
     "C02", "exploration",
-    lambda tier, seed: history_plan("values", tier, seed),
+    lambda tier, seed: history_plan("values", tier, seed) + lean_jobs(tier, seed),
     accept=["C02"],
     floors={"rows_compared": 100000, **{f"op.write.{n}": 20 for n in [
         "view.field", "view.component_mut", "World::view.component_mut", "borrow.component_mut", "World::borrow.component_mut",
@@ -128,7 +139,7 @@ reg(Prop(
 
 reg(Prop(
     "C04", "exploration",
-    lambda tier, seed: history_plan("drops", tier, seed),
+    lambda tier, seed: history_plan("drops", tier, seed) + lean_jobs(tier, seed),
     accept=["C04"],
     floors={"registry.drops_seen": 50000, "within_capacity_refused": 50, "drop_world.populated": 50, "clones_made": 50, "registry.zst_dropped": 500, "iter_destroy.destroyed": 200},
     rule=HIST + "every component value carries a unique token registered at creation; Drop/Clone impls report to a registry that flags drop of a non-live token, clone of a dropped token, tokens alive without an owner (leak) and tokens of live entities dropped; zero-sized Drop types are counted per type; worlds are cloned and dropped at arbitrary points; Miri's leak check, LeakSanitizer (and memcheck in the thorough tier) run with the allocator monitor in pass-through. evaluations = history steps; " + STATES,
@@ -136,7 +147,7 @@ reg(Prop(
 
 reg(Prop(
     "C06", "exploration",
-    lambda tier, seed: history_plan("iter", tier, seed, scale=0.6),
+    lambda tier, seed: history_plan("iter", tier, seed, scale=0.6) + lean_jobs(tier, seed),
     accept=["C06"],
     floors={"pass.items": 50000, "query.items": 50000, "iter.state.empty": 100, "iter.state.full": 20, "op.break.ecs_iter!": 20, "op.break.ecs_iter_borrow!": 20, "op.break.ecs_iter_destroy!": 20},
     rule=HIST + "after every step all 8 per-archetype iteration paths and 6 cross-archetype queries x 3 macros are run; each pass must yield exactly the model's live set (no omission, duplicate or stranger), each handle paired with its own cells; Break is returned at a chosen call k (first, last, random) and the closure must have run exactly k+1 times across all archetypes. distinct_nontrivial = distinct (query, macro, k, total) Break positions in the largest single process",
@@ -228,7 +239,7 @@ reg(Prop(
 def plan_c11(tier, seed):
     jobs = []
     r = 50 if tier == "quick" else 2000
-    for cfg, n, rr in ((Config("dbg"), 4, r), (Config("rel"), 4, r), (Config("miri-dbg"), 12, 1), (Config("miri-rel"), 12, 1), (Config("asan"), 2, r)):
+    for cfg, n, rr in ((Config("dbg"), 4, r), (Config("rel"), 4, r), (Config("miri-dbg"), 8, 1), (Config("miri-rel"), 8, 1), (Config("asan"), 2, r)):
         if tier == "thorough" and cfg.tool.startswith("miri"):
             n, rr = 16, 8
         jobs += shards(cfg, "borrow", "small", n, rr, seed, nshards_arg=True, timeout=3000)
@@ -262,7 +273,7 @@ reg(Prop(
     nontrivial_key="storage_states", assumptions=COMMON_ASSUME, design_ref="DESIGN.md section 4, C12"))
 
 def plan_c13(tier, seed):
-    jobs = history_plan("clone", tier, seed)
+    jobs = history_plan("clone", tier, seed, miri_ops=40)
     # pending events must be cloned too: the same workload built with the events feature
     k = 1 if tier == "quick" else 6
     jobs += shards(Config("dbg", ("events",)), "clone", "main", 3, 2500 * k, seed + 30, timeout=3000)
